@@ -20,6 +20,10 @@ def fields_after(mids):
     """live fields offered to the sink (the sink consumes everything)"""
     f = ["a"]
     for k in mids:
+        if k == "fn_sink":
+            f.remove("a")
+        if k == "fn_gen" and "a" not in f:
+            f.append("a")
         if k in ("src2_dep", "src2_nodep") and "b" not in f:
             f.append("b")
         if k == "fn_new" and "c" not in f:
@@ -58,7 +62,8 @@ class PipeDut(Elaboratable):
                     pm.d.top_comb += sig.eq(nodep.read.run)
                 return pm
 
-        m.submodules.pipeline = p = RecordingPB()
+        # a point with no live signals (after "fn_sink", which consumes `a` and produces nothing) needs allow_empty
+        m.submodules.pipeline = p = RecordingPB(allow_empty="fn_sink" in mids)
         p.add_external(self.write)
 
         def link(i):
@@ -77,6 +82,20 @@ class PipeDut(Elaboratable):
                     return fn
                 field = "a" if k == "fn_over" else "c"
                 p.stage(m, o=[(field, 1)], **kw)(mk(j, field))
+            elif k == "fn_sink":
+                def mk_sink(j):
+                    def fn(a):
+                        m.d.comb += self.wit[j].eq(1)
+                        m.d.top_comb += self.seen[j].eq(a)
+                    return fn
+                p.stage(m, **kw)(mk_sink(j))
+            elif k == "fn_gen":
+                def mk_gen(j):
+                    def fn():
+                        m.d.comb += self.wit[j].eq(1)
+                        return {"a": 1}
+                    return fn
+                p.stage(m, o=[("a", 1)], **kw)(mk_gen(j))
             elif k == "call":
                 p.call_method(self.ext, **kw)
             elif k == "src2_dep":
@@ -164,11 +183,14 @@ class PipeH(MethodHarness):
                 fired = bool(self.xobs(obs, f"wit{j}"))
                 if fired:
                     item = take(j, f"stage{j}")
-                    if item is not None:
+                    if item is not None and k == "fn_gen":
+                        item = (1, item[1], item[2])
+                    elif item is not None:
                         if self.xobs(obs, f"seen{j}") != item[0]:
                             V.append(f"stage{j}.input: the stage function saw a={self.xobs(obs, f'seen{j}')}, the oldest item "
                                      f"waiting in front of it has a={item[0]}")
-                        item = (1 - item[0], item[1], item[2]) if k == "fn_over" else (item[0], item[1], 1 - item[0])
+                        item = {"fn_over": (1 - item[0], item[1], item[2]), "fn_new": (item[0], item[1], 1 - item[0]),
+                                "fn_sink": (None, item[1], item[2])}[k]
             elif k == "call":
                 e = c["ext"]
                 fired = bool(e.done)
@@ -279,6 +301,12 @@ def shapes(tier):
                                              ["fifo2", "fifo1", "pipe"]]
         for ls in linksets:
             out.append({"mids": [k1, k2], "links": ls})
+    # a point without live signals (allow_empty): a stage consuming everything, then nodes that need nothing from the item
+    for tail in (["fn_gen"], ["src2_dep"], ["src2_nodep"], ["fn_gen", "fn_over"], ["src2_nodep", "fn_gen"]):
+        for ls in ([["pipe"] * (len(tail) + 2)] if q else [["pipe"] * (len(tail) + 2), ["pipe", "fifo2"] + ["pipe"] * len(tail)]):
+            out.append({"mids": ["fn_sink"] + tail, "links": ls})
+            if len(tail) == 1:
+                out.append({"mids": ["fn_sink"] + tail, "links": ls, "ready": True})
     if not q:
         for ks in itertools.product(["fn_over", "fn_new", "src2_nodep", "call"], repeat=3):
             if list(ks).count("src2_nodep") > 1 or list(ks).count("call") > 1 or list(ks).count("fn_new") > 1:
@@ -295,7 +323,7 @@ def jobs(tier):
 def run(rep, tier):
     rep.rule = ("every pipeline shape of a bounded grammar (source external, 0-2 (3 thorough) middle nodes from {function stage "
                 "overwriting a field, function stage adding a field, called external method, extra source with and without "
-                "no_dependency}, sink external; every link a Pipe or a FIFO of depth 1-2; optional per-stage ready input; an "
+                "no_dependency; with allow_empty also a stage consuming every field followed by an input-less stage / extra source}, sink external; every link a Pipe or a FIFO of depth 1-2; optional per-stage ready input; an "
                 "external clear method) is built with the real PipelineBuilder and explored completely: every valuation of "
                 "source/sink/extra-source enables and data, called-method readiness and result, stage readiness and clear in "
                 "every reachable state, in lock-step with a monitor holding one queue of in-flight items per link: a node fires "
